@@ -99,7 +99,7 @@ double __CPROVER_uninterpreted_ceil(double);
 /* unbounded proof: float arithmetic is uninterpreted, so the value of the index expression is ASSUMED to lie in
  * the vector (discharged for N <= NTH_N_MAX by the precise, bounded proof h_get_ranking_fn_nth) */
 uint64_t g_n_siblings;
-static inline uint64_t f2i_u64_in_range(double x) { uint64_t v = __CPROVER_uninterpreted_f2i_u64(x); __CPROVER_assume(v < g_n_siblings); return v; }
+static inline uint64_t f2i_u64_in_range(double x) { uint64_t v = __CPROVER_uninterpreted_f2i_u64(x); if (g_n_siblings > 0) __CPROVER_assume(v < g_n_siblings); return v; }   /* nothing is assumed about an index into an EMPTY sibling list: computing one there is the code's bug */
 #undef F2I_u64
 #define F2I_u64(x) f2i_u64_in_range((double)(x))
 #endif
